@@ -17,6 +17,10 @@ func (s *syntaxSlicePositiveStepSubscript) getIndexes(srcLength int) []int {
 		for i := loopStart; i < loopEnd; i += s.step.number {
 			result[index] = i
 			index++
+			if s.step.number >= loopEnd-i {
+				// The next index would reach the end; stop before `i += step` can overflow.
+				break
+			}
 		}
 	}
 
